@@ -161,6 +161,16 @@ Definition unit_store (u : tunit) (us : Z) : option Z :=
   | _ => Some (Z.div us (unit_us u) * unit_us u)         (* floor: sub-unit part silently dropped *)
   end.
 
+(* timedelta -> duration[u]: pyarrow first forms days * 86400e6 in int64 microseconds (so a timedelta below
+   -106751991 days is refused even where the total would fit), then scales; s / ms floor silently *)
+Definition delta_store (u : tunit) (us : Z) : option Z :=
+  let us_ok := int64_ok (Z.div us 86400000000 * 86400000000) && int64_ok us in
+  match u with
+  | Uns => if us_ok && int64_ok (us * 1000) then Some us else None
+  | Uus => if us_ok then Some us else None
+  | _ => Some (Z.div us (unit_us u) * unit_us u)
+  end.
+
 Fixpoint list_eqb_N (a b : list N) : bool :=
   match a, b with
   | [], [] => true
@@ -236,7 +246,7 @@ Definition param_field (t : ty) : aty * bool :=
    and becomes a struct column, into which the serialized bytes cannot be written). *)
 Definition result_field (opt_first : bool) (t : ty) : aty * bool :=
   if opt_first then param_field t
-  else if is_data t then (ABin, true)
+  else if is_data t then (ABin, false)    (* nullable here = the annotation is Optional: what _validate_result tests *)
   else let '(inner, nullable) := is_opt t in (infer inner, nullable).
 
 (* ------------------------------------------------------------------ pyarrow: pa.array([v], type=a)[0].as_py() *)
@@ -321,11 +331,12 @@ Definition scalar_rt (a : aty) (v : value) : outcome :=
   | ATime _, VInt _ | ATime _, VFloat _ => Unmodelled
   | ATime _, _ => Reject
   | ADuration u, VDelta us =>
-      match unit_store u us with Some us' => Accept (VDelta us') | None => Reject end
+      match delta_store u us with Some us' => Accept (VDelta us') | None => Reject end
   | ADuration _, VInt _ | ADuration _, VFloat _ => Unmodelled
   | ADuration _, _ => Reject
   | ADecimal _ _, _ => Unmodelled
-  | AStruct, _ => Unmodelled
+  | AStruct, VDict _ | AStruct, VTuple _ | AStruct, VList _ => Unmodelled      (* dict / tuple -> struct: not modelled *)
+  | AStruct, _ => Reject                                                       (* bytes, dataclass objects, scalars *)
   | AList _, _ | AMap _ _, _ => Unmodelled                                    (* handled by arrow_rt *)
   end.
 
@@ -465,7 +476,7 @@ Fixpoint has_type (t : ty) (v : value) {struct t} : bool :=
                | _ => false
                end
   | TDuration u => match v with
-                   | VDelta us => match unit_store u us with Some us' => Z.eqb us' us | None => false end
+                   | VDelta us => match delta_store u us with Some us' => Z.eqb us' us | None => false end
                    | _ => false
                    end
   | TDecimal _ _ => false
@@ -521,7 +532,7 @@ Definition lossy_scalar (a : aty) (v : value) : bool :=
   | ATimestamp u tz, VDatetime us aware =>
       negb (Bool.eqb aware tz) || match unit_store u us with Some us' => negb (Z.eqb us' us) | None => false end
   | ATime u, VTime us => match u with Us | Ums => negb (Z.eqb (Z.div us (unit_us u) * unit_us u) us) | _ => false end
-  | ADuration u, VDelta us => match unit_store u us with Some us' => negb (Z.eqb us' us) | None => false end
+  | ADuration u, VDelta us => match delta_store u us with Some us' => negb (Z.eqb us' us) | None => false end
   | _, _ => false
   end.
 
